@@ -43,6 +43,10 @@ video_sink_init(struct video_sink_s* self,
         stream_id,
         channel_capacity_bytes);
     channel_new(&self->in, channel_capacity_bytes);
+    // A queue without readers never makes its writer wait. Register the sink's
+    // reader now, not with the sink thread's first read: otherwise whatever is
+    // written beyond one capacity before that read overwrites unread frames.
+    channel_read_map(&self->in, &self->reader);
 
     thread_init(&self->thread);
     return Device_Ok;
